@@ -118,19 +118,20 @@ def World.nic (w : World) (id : Nat) : Option Nic := w.nics.find? (·.id == id)
 /-- `CheckLocalAddress(0, proto, addr)`: some NIC has the address (endpoint table is keyed by address) -/
 def World.checkLocal (w : World) (a : Addr) : Bool := w.nics.any fun n => n.addrs.any fun p => p.2 == a
 
-/-- `FindRoute(0, local, remote, proto)` → (local address, remote address, nic) -/
-def World.findRoute (w : World) (localA remote : Addr) (proto : Nat) : Option (Addr × Addr × Nat) :=
+/-- `FindRoute(0, local, remote, proto)` → (local address, remote address, nic, family of the network
+    endpoint that owns the local address — the one that will write the packet) -/
+def World.findRoute (w : World) (localA remote : Addr) (proto : Nat) : Option (Addr × Addr × Nat × Nat) :=
   w.routes.findSome? fun r =>
     if remote.length != 0 && !maskMatch remote r.dest r.mask then none else
     match w.nic r.nic with
     | none => none
     | some n =>
-      let ref : Option Addr :=
-        if localA.length != 0 then (if n.addrs.any (fun p => p.2 == localA) then some localA else none)
-        else n.primary proto
+      let ref : Option (Addr × Nat) :=
+        if localA.length != 0 then (n.addrs.find? (fun p => p.2 == localA)).map fun p => (p.2, p.1)
+        else (n.primary proto).map fun a => (a, proto)
       match ref with
       | none => none
-      | some la => some (la, if remote.length == 0 then la else remote, n.id)
+      | some (la, fam) => some (la, if remote.length == 0 then la else remote, n.id, fam)
 
 /-! ### demultiplexer -/
 
@@ -149,10 +150,15 @@ def World.findEndpoint (w : World) (netProto trans : Nat) (id : Tid) : Option Na
       | some e => some e
       | none => w.lookupReg netProto trans { id with laddr := [], raddr := [], rport := 0 }
 
+/-- drop repeated network protocols (registering the same id twice for one protocol is the same entry) -/
+def dedup : List Nat → List Nat
+  | [] => []
+  | a :: t => if t.contains a then dedup t else a :: dedup t
+
 /-- `registerEndpoint` over several network protocols with rollback -/
 def World.register (w : World) (netProtos : List Nat) (trans : Nat) (id : Tid) (ep : Nat) : Option World :=
   if netProtos.any fun n => (w.lookupReg n trans id).isSome then none
-  else some { w with demux := w.demux ++ netProtos.eraseDups.map fun n => ⟨n, trans, id, ep⟩ }
+  else some { w with demux := w.demux ++ (dedup netProtos).map fun n => ⟨n, trans, id, ep⟩ }
 
 def World.unregister (w : World) (netProtos : List Nat) (trans : Nat) (id : Tid) : World :=
   { w with demux := w.demux.filter fun r => !(netProtos.contains r.netProto && r.trans == trans && r.id == id) }
@@ -224,14 +230,14 @@ def udpConnect (w : World) (i : Nat) (addr : Addr) (port learnedPort : Nat) : Wo
     | .ok (np, a) =>
       match w.findRoute e.id.laddr a np with
       | none => (w, some .noRoute)
-      | some (la, ra, _) =>
+      | some (la, ra, _, fam) =>
         let id : Tid := { laddr := la, lport := localPort, rport := port, raddr := ra }
         let netProtos := if np == v6 && !e.v6only then [v4, v6] else [np]
         match registerWithStack w i e netProtos id learnedPort with
         | (w1, .error err) => (w1, some err)
         | (w1, .ok id1) =>
           let w2 := if e.id.lport != 0 then w1.unregister e.effProtos udpProto e.id else w1
-          (w2.setUdp i { e with id := id1, routeLocal := la, routeRemote := ra, routeProto := np, dstPort := port,
+          (w2.setUdp i { e with id := id1, routeLocal := la, routeRemote := ra, routeProto := fam, dstPort := port,
                                 effProtos := netProtos, state := .connected, rcvReady := true }, none)
 
 def udpRead (w : World) (i : Nat) : World × Except Err Dgram :=
@@ -269,6 +275,36 @@ structure OutPkt where
   payload : List Nat
 deriving Repr, DecidableEq
 
+/-- `sendUDP` + network `WritePacket`: one packet with exactly `payload`, unless its length does not
+    fit the 16-bit length fields of the network header (then the network layer refuses it) -/
+def emitUdp (fam : Nat) (la ra : Addr) (lport dport : Nat) (payload : List Nat) : Except Err (Nat × OutPkt) :=
+  let maxPayload : Nat := if fam == v4 then 65535 - 20 - 8 else 65535 - 8
+  if payload.length > maxPayload then .error .tooLong
+  else .ok (payload.length, ⟨fam, la, ra, lport, dport, payload⟩)
+
+/-- `prepareForWrite` (auto-bind of an unbound socket) -/
+def prepareForWrite (w : World) (i : Nat) (e0 : UdpEp) (hasTo : Bool) (learnedPort : Nat) : World × Option Err :=
+  match e0.state with
+  | .initial =>
+    match udpBind w i [] 0 learnedPort with
+    | (w', some err) => (w', some err)
+    | (w', none) => (w', if !hasTo then some .destRequired else none)
+  | .connected => (w, none)
+  | .bound => (w, if !hasTo then some .destRequired else none)
+  | .closed => (w, some .invalidState)
+
+/-- where the packet goes: (family, local, remote, dport) -/
+def writeRoute (w : World) (e : UdpEp) (to : Option (Addr × Nat)) : Except Err (Nat × Addr × Addr × Nat) :=
+  match to with
+  | none => .ok (e.routeProto, e.routeLocal, e.routeRemote, e.dstPort)
+  | some (a, p) =>
+    match checkV4Mapped e a false with
+    | .error err => .error err
+    | .ok (np, a') =>
+      match w.findRoute e.id.laddr a' np with
+      | none => .error .noRoute
+      | some (la, ra, _, fam) => .ok (fam, la, ra, p)
+
 /-- `Write(payload, to)`; `to = none` uses the connected destination. Returns bytes written and the packet. -/
 def udpWrite (w : World) (i : Nat) (to : Option (Addr × Nat)) (payload : List Nat) (learnedPort : Nat) :
     World × Except Err (Nat × OutPkt) :=
@@ -277,37 +313,15 @@ def udpWrite (w : World) (i : Nat) (to : Option (Addr × Nat)) (payload : List N
   | some e0 =>
     if payload.length > 65535 then (w, .error .tooLong) else
     if e0.shutWr then (w, .error .closedSend) else
-    -- prepareForWrite
-    let prep : World × Option Err :=
-      match e0.state with
-      | .initial =>
-        match udpBind w i [] 0 learnedPort with
-        | (w', some err) => (w', some err)
-        | (w', none) => (w', if to.isNone then some .destRequired else none)
-      | .connected => (w, none)
-      | .bound => (w, if to.isNone then some .destRequired else none)
-      | .closed => (w, some .invalidState)
-    match prep with
+    match prepareForWrite w i e0 to.isSome learnedPort with
     | (w1, some err) => (w1, .error err)
     | (w1, none) =>
       match w1.udp[i]? with
       | none => (w1, .error .invalidState)
       | some e =>
-        -- the network layer refuses packets whose length does not fit the 16-bit length fields
-        let maxPayload (np : Nat) : Nat := if np == v4 then 65535 - 20 - 8 else 65535 - 8
-        match to with
-        | none =>
-          if payload.length > maxPayload e.routeProto then (w1, .error .tooLong) else
-          (w1, .ok (payload.length, ⟨e.routeProto, e.routeLocal, e.routeRemote, e.id.lport, e.dstPort, payload⟩))
-        | some (a, p) =>
-          match checkV4Mapped e a false with
-          | .error err => (w1, .error err)
-          | .ok (np, a') =>
-            match w1.findRoute e.id.laddr a' np with
-            | none => (w1, .error .noRoute)
-            | some (la, ra, _) =>
-              if payload.length > maxPayload np then (w1, .error .tooLong) else
-              (w1, .ok (payload.length, ⟨np, la, ra, e.id.lport, p, payload⟩))
+        match writeRoute w1 e to with
+        | .error err => (w1, .error err)
+        | .ok (fam, la, ra, dport) => (w1, emitUdp fam la ra e.id.lport dport payload)
 
 /-! ### inbound UDP -/
 
